@@ -81,10 +81,13 @@ class Worker:
                     res = fn()
                 except seams.HarnessError as e:
                     res = {"harness_error": "HarnessError: %s" % e,
-                           "tb": traceback.format_exc()[-1500:]}
+                           "tb": traceback.format_exc()[-6000:]}
                 except BaseException as e:  # noqa: BLE001
+                    if os.environ.get("VERIF_TBFILE"):
+                        with open(os.environ["VERIF_TBFILE"], "a") as f_:
+                            f_.write(traceback.format_exc() + "\n=====\n")
                     res = {"harness_error": "%s: %s" % (type(e).__name__, e),
-                           "tb": traceback.format_exc()[-3000:]}
+                           "tb": traceback.format_exc()[-9000:]}
                 data = json.dumps(res, default=_jsonable).encode()
                 with os.fdopen(w, "wb") as f:
                     f.write(data)
